@@ -118,10 +118,12 @@ func sel(x ast.Expr, name string) ast.Expr { return &ast.SelectorExpr{X: x, Sel:
 func prePost(s site) (pre, post []ast.Stmt) {
 	switch s.kind {
 	case "lock":
-		pre = append(pre, call("simAcquire", sel(s.recv, "TryLock"), sel(s.recv, "Unlock")))
+		// simAcquireAny(&X): the rewrite is syntactic and X may be a mutex value, a pointer to one or an interface
+		// (sync.Locker of a sync.Cond); the generated helper finds TryLock/Unlock at run time
+		pre = append(pre, call("simAcquireAny", &ast.UnaryExpr{Op: token.AND, X: s.recv}))
 		post = append(post, call("simPoint", pt("ptLocked")))
 	case "rlock":
-		pre = append(pre, call("simAcquire", sel(s.recv, "TryRLock"), sel(s.recv, "RUnlock")))
+		pre = append(pre, call("simRAcquireAny", &ast.UnaryExpr{Op: token.AND, X: s.recv}))
 		post = append(post, call("simPoint", pt("ptLocked")))
 	case "trylock":
 		pre = append(pre, call("simPoint", pt("ptTryLock")))
@@ -268,5 +270,53 @@ func main() {
 		}
 		total++
 	}
+	if total > 0 {
+		if err := os.WriteFile(filepath.Join(dir, "verif_simany.go"), []byte(helperSrc), 0o644); err != nil {
+			fmt.Fprintln(os.Stderr, err)
+			os.Exit(2)
+		}
+	}
 	fmt.Printf("instrumented %d file(s)\n", total)
 }
+
+// helperSrc is written next to the rewritten files: lock acquisition through whatever X turns out to be.
+const helperSrc = `//go:build verif
+
+package fox
+
+type simTryLocker interface {
+	TryLock() bool
+	Unlock()
+}
+
+type simTryRLocker interface {
+	TryRLock() bool
+	RUnlock()
+}
+
+// simAcquireAny gates X.Lock() given &X: X is a mutex value (its pointer has TryLock), or a pointer or an interface
+// holding one (the pointed-to value has it). Anything else only gets a yield point.
+func simAcquireAny[T any](p *T) {
+	if l, ok := any(p).(simTryLocker); ok {
+		simAcquire(l.TryLock, l.Unlock)
+		return
+	}
+	if l, ok := any(*p).(simTryLocker); ok {
+		simAcquire(l.TryLock, l.Unlock)
+		return
+	}
+	simPoint(ptTryLock)
+}
+
+func simRAcquireAny[T any](p *T) {
+	if l, ok := any(p).(simTryRLocker); ok {
+		simAcquire(l.TryRLock, l.RUnlock)
+		return
+	}
+	if l, ok := any(*p).(simTryRLocker); ok {
+		simAcquire(l.TryRLock, l.RUnlock)
+		return
+	}
+	simPoint(ptTryLock)
+}
+`
